@@ -83,6 +83,11 @@ def gen(rng, kind, tier):
             "a": float(rng.choice([0.25, 0.5, 2.0, 8.0, 1.0])), "b": float(rng.integers(-40, 41)) / 8.0,
             "extreme_map": bool(rng.random() < 0.15), "nan_cells": bool(rng.random() < 0.12),
             "refine": bool(rng.random() < 0.06), "thr_seed": int(rng.integers(1 << 30)), "unit": unit}
+    if rng.random() < 0.3:
+        # images as cameras and segmentation tools deliver them: integer grey values (8/16 bit, signed and
+        # unsigned) or single precision.  All generated data are dyadic with at most 11 significant bits, so
+        # every pixel value is exactly representable in the chosen type and in float64
+        case["dtype"] = str(rng.choice(["uint8", "uint16", "int16", "int64", "float32", "int8"]))
     return case
 
 
@@ -153,7 +158,26 @@ def run(case, rec):
     grid = geom.make_grid(spec)
     data = make_image(grid, spec, case["image"])
     rule = case["rule"]
-    if case.get("nan_cells") and rule == "number":
+    dtype = None
+    if case.get("dtype"):
+        # grey values: integers filling the upper part of the type's range (bright images), signed types also
+        # have negative pixels.  `data` stays a float64 copy of exactly the same numbers for the oracle
+        dtype = np.dtype(case["dtype"])
+        if dtype.kind in "iu":
+            ints = np.round(data * (64 if case["image"]["type"] == "levels" else 1024)).astype(np.int64)
+            info = np.iinfo(dtype)
+            span = int(ints.max() - ints.min())
+            if span > int(info.max) - int(info.min):
+                ints = ints // (span // 200 + 1)  # 8-bit types: coarser grey values
+            top = min(int(info.max), 2 ** 20)
+            ints = ints - int(ints.max()) + top - int(case["thr_seed"] % 7)  # brightest pixel close to the type's maximum
+            if int(ints.min()) < int(info.min):
+                ints = ints - int(ints.min()) + int(info.min)
+            if dtype.kind == "i" and case["thr_seed"] % 2:
+                ints = ints - int(ints.min()) + max(int(info.min), -(2 ** 20)) + int(case["thr_seed"] % 5)  # darkest pixel close to its minimum
+            data = ints.astype(float)
+        rec.count(f"image_dtype:{dtype.name}")
+    if case.get("nan_cells") and rule == "number" and (dtype is None or dtype.kind == "f"):
         # a few invalid (NaN) pixels: they never exceed a threshold, whatever its sign
         r_n = np.random.default_rng(case["thr_seed"] + 1)
         flat = data.reshape(-1)
@@ -174,13 +198,14 @@ def run(case, rec):
         thr_arg = rule
     label = f"grid={geom.grid_label(spec)}{spec['shape']} image={case['image']} rule={rule} thr={thr_arg} rho={rho}"
 
-    def analyse(arr, thr, refine=False):
+    def analyse(arr, thr, refine=False, dtype=dtype):
         log: list = []
-        the_field = ScalarField(grid, arr)
+        the_field = ScalarField(grid, arr) if dtype is None else ScalarField(grid, np.asarray(arr).astype(dtype), dtype=dtype)
         with monitors.wrap_attr(ia, "threshold_otsu", monitors.recording(log, "threshold_otsu")):
             c = common.monitored(rec, "locate_droplets", droplets.locate_droplets, the_field, threshold=thr,
                                  minimal_radius=rho, refine=refine)
-        rec.check(np.array_equal(np.asarray(the_field.data), np.asarray(arr), equal_nan=True), "input-unchanged",
+        rec.check(np.array_equal(np.asarray(the_field.data, float), np.asarray(arr, float), equal_nan=True)
+                  and (dtype is None or the_field.data.dtype == dtype), "input-unchanged",
                   f"locate_droplets modified the field it was given; {label}")
         return c, log
 
@@ -252,7 +277,7 @@ def run(case, rec):
         rec.count("extreme_affine_maps")
     mapped = a * data + b
     thr2 = (a * thr_arg + b) if rule == "number" else thr_arg
-    c2, _ = analyse(mapped, thr2)
+    c2, _ = analyse(mapped, thr2, dtype=None)  # the mapped image is always float64 (so the pixel type must not matter either)
     if rec.check(c2.ok, "no-exception", f"mapped image raised {c2.exc!r}; {label}"):
         if rule == "mean" and float(np.mean(mapped)) != a * tau + b:
             rec.count("mean_not_exact_under_map_skipped")
